@@ -203,7 +203,7 @@ def wrap_ufunc_productspace(name, n_in, n_out, doc):
                 if out2 is None:
                     out2 = self.elem.space.element()
                 for x, out1_x, out2_x in zip(self.elem, out1, out2):
-                    getattr(x.ufuncs, name)(out1=out1_x, out2=out2_x, **kwargs)
+                    getattr(x.ufuncs, name)(out=(out1_x, out2_x), **kwargs)
                 return out1, out2
 
         else:
